@@ -304,7 +304,7 @@ impl Check for C17 {
     }
     fn cases(&self, tier: Tier) -> u64 {
         match tier {
-            Tier::Quick => 96,
+            Tier::Quick => 130,
             Tier::Thorough => 1600,
         }
     }
@@ -402,7 +402,10 @@ impl Check for C17 {
             recovery_fault = None;
         }
         let obstacles = ["out_is_file", "parent_is_file", "dangling_symlink", "dir_squats_types", "dir_squats_cache", "dir_squats_index", "name_too_long", "dir_squats_commands"];
-        let obstacle = obstacles[(i % obstacles.len() as u64) as usize].to_string();
+        // unusable cases are the blocks q with (i / #setups) % 5 == 3; inside a block every setup
+        // occurs once: let the obstacle walk with block and setup so that all pairs get met
+        let q = i / setups.len() as u64 / 5;
+        let obstacle = obstacles[((q + i % setups.len() as u64) % obstacles.len() as u64) as usize].to_string();
         serde_json::to_value(Case {
             kind: kind.into(),
             prestate,
